@@ -82,6 +82,7 @@ class SpecHub:
         self.acks_due: Dict[Any, int] = {}  # slot -> number of ACKs the property demands so far
         self.unspecified: List[str] = []  # notes about U-rules taken in the last round
         self.removed_log: List[Tuple] = []  # (slot, mod_id, name, logger, unique, pid) in removal order
+        self.wait_deaths: Dict[Any, str] = {}  # slot -> 'fin'|'rst': the peer goes away while the hub waits for this logger
         self._closed_pending: List[bytes] = []
         self._announcing = False
         self.refused: List[Any] = []
@@ -307,6 +308,11 @@ class SpecHub:
                 continue  # removed by a nested step
             eligible = dest == 0 or r.mod_id == dest or r.logger
             if r.sock not in self.W or r.logger:
+                if r.logger and r.sock in self.W:
+                    how = self.wait_deaths.pop(r.slot, None)
+                    if how:
+                        cs = self.clients[r.slot].sock
+                        cs.close() if how == "fin" else cs.reset()
                 if eligible:
                     try:
                         self._send(r, h, payload)
